@@ -152,6 +152,12 @@ BytesLT(a, b) == IF a = <<>> THEN FALSE
 AllZero(a) == \A i \in 1..Len(a) : a[i] = 0
 Se32Ok(se, order) == Len(se) = 32 /\ ~AllZero(se) /\ BytesLT(se, order)
 
+\* The text form of a public key on a network: the network's SEC prefix followed by the lower-case hexadecimal
+\* digits of the SEC octets (characters are code points).  The prefix is configuration.
+HexDigit(v) == IF v < 10 THEN 48 + v ELSE 87 + v
+HexOf(b) == [i \in 1..(2 * Len(b)) |-> HexDigit(IF i % 2 = 1 THEN b[(i + 1) \div 2] \div 16 ELSE b[i \div 2] % 16)]
+SecText(pfx, b) == pfx \o HexOf(b)
+
 \* arithmetic on 32-byte strings, enough to name the boundary values n-1, n+1, 2^256-1, ...
 RECURSIVE DecBytes(_)            \* a - 1 (a # 0)
 DecBytes(a) == LET k == Len(a) IN
